@@ -29,13 +29,14 @@ SUITES = {
     "C02": [("c02", ("check", "stream:")), ("c02d", ("check", "hint:")), ("c02e", ("check", "expression hint:"))],
     "C03": [("c03", ("check", ""))],
     # C04: a panic on any feasible path of any suite; quick runs the cheaper suites, thorough all of them
-    "C04": [("c14", ("panic", "")), ("c01", ("panic", "")), ("c01d", ("panic", "")), ("c02d", ("panic", "")), ("c08", ("panic", "")), ("c09", ("panic", "")),
-            ("c03", ("panic", ""), "thorough"), ("c02", ("panic", ""), "thorough"), ("c16", ("panic", ""), "thorough"), ("c07", ("panic", ""), "thorough"),
+    "C04": [("c14", ("panic", "")), ("c01", ("panic", "")), ("c01d", ("panic", "")), ("c02d", ("panic", "")), ("c08", ("panic", "")), ("c09", ("panic", "")), ("c16", [("check", "totality:"), ("panic", "")]),
+            ("c03", ("panic", ""), "thorough"), ("c02", ("panic", ""), "thorough"), ("c07", ("panic", ""), "thorough"),
             ("c02e", ("panic", ""), "thorough")],
     "C07": [("c07", ("check", "meaning:"))],
     "C08": [("c08", ("check", "bounds:")), ("c16", ("check", "bounds:"))],
     "C13": [("c07", ("check", "normalize:"))],
     "C09": [("c09", ("check", "zone:"))],
+    "C11": [("c09", ("check", "events:"))],
     "C14": [("c14", ("check", ("from_ranges:", "addition:", "iter:", "is_empty", "built schedule:")))],
     "C16": [("c16", [("check", "bound:"), ("panic", "")])],
     "C17": [("c14", ("check", "comments:")), ("c01", ("check", "comments:")), ("c02", ("check", "comments:"))],
